@@ -50,6 +50,8 @@ def frequency_components(circuit: Circuit, w_max: float, w_resolution: float = 1
             return []
         if component.type == 'periodic_voltage_source' or component.type == 'periodic_current_source':
             n_max = np.floor(w_max/w)
+            if (n_max+1)*w <= w_max: # the rounded quotient can fall just below an integer although the harmonic itself is not above w_max
+                n_max += 1
             return [w*n for n in np.arange(n_max+1)]
         return [w]
     distinct_frequencies : list[float] = []
